@@ -46,6 +46,9 @@ type Plan struct {
 	// Burst > 1: that rejection comes as the last of Burst notifications in one container (the server went through
 	// several salts in a row); the salt of the last one is the one to keep
 	Burst int `json:",omitempty"`
+	// StoreFault: before that, one store of the session fails (disk full) while a salt is saved, and the same salt is
+	// announced again afterwards
+	StoreFault bool `json:",omitempty"`
 }
 
 type Rotation struct {
@@ -141,6 +144,13 @@ func build(src scen.Source, keys []refsrv.RSAKeyJSON, p Plan) (*scen.Scenario, e
 		steps = append(steps, scen.Step{Op: "answer", Items: []scen.AnsItem{{Tag: tg}}})
 	}
 	steps = append(steps, scen.Step{Op: "await-calls"}, scen.Step{Op: "probe"})
+	if p.StoreFault {
+		// the disk is full while a salt announced by new_session_created is saved (the client can only warn); when the
+		// server names the same salt again in a rejection and the disk has room again, the store must get it
+		s := salts(len(p.Rotations) + 7)
+		steps = append(steps, scen.Step{Op: "store-fault", N: 1}, scen.Step{Op: "new-session", Salt: s}, scen.Step{Op: "store-fault"},
+			scen.Step{Op: "bad-salt", Salt: s, Push: &scen.PushSpec{Kind: "last-ack", Arg: 4 << 32}}, scen.Step{Op: "session-snapshot", Salt: s}, scen.Step{Op: "probe"})
+	}
 	if p.AckRejected {
 		last := salts(len(p.Rotations))
 		steps = append(steps, scen.Step{Op: "bad-salt", Salt: last, N: p.Burst, Push: &scen.PushSpec{Kind: "last-ack", Arg: 4 << 32}},
@@ -315,6 +325,9 @@ func classes(p Plan) ([]string, bool) {
 	if p.Burst > 1 {
 		cls = append(cls, "salt-notifications-in-a-burst")
 	}
+	if p.StoreFault {
+		cls = append(cls, "store-fails-once-then-same-salt-again")
+	}
 	cls = append(cls, fmt.Sprintf("rotations=%d", len(p.Rotations)))
 	if len(p.Rotations) >= 2 {
 		cls = append(cls, "second-rotation")
@@ -377,6 +390,7 @@ func genPlan(t *rapid.T) Plan {
 			Order: rapid.Uint64().Draw(t, "order")})
 	}
 	p.AckRejected = rapid.IntRange(0, 2).Draw(t, "ackrejected") == 0
+	p.StoreFault = rapid.IntRange(0, 3).Draw(t, "storefault") == 0
 	if p.AckRejected && rapid.Bool().Draw(t, "burst") {
 		p.Burst = rapid.IntRange(2, 6).Draw(t, "nburst")
 	}
@@ -438,6 +452,7 @@ func TestC11(t *testing.T) {
 			if i%6 == 1 {
 				plans[i].Burst = 2 + i%4
 			}
+			plans[i].StoreFault = i%5 == 2
 		}
 		stride := run.Pick(5, 1)
 		for i, p := range plans {
